@@ -60,7 +60,7 @@ def strategy(draw):
 
 
 def np_code(op):
-    return CODE_OF_DTYPE[op['cast']] if op.get('cast') else CODE_OF_DTYPE[np.dtype(op['data']['dt']).name]
+    return CODE_OF_DTYPE[op['cast'].lstrip('<>')] if op.get('cast') else CODE_OF_DTYPE[np.dtype(op['data']['dt']).name]
 
 
 
